@@ -40,13 +40,17 @@ sws._TICK_PAGE_SIZE = 2  # configuration constant: small pages so that a 3-tick 
 T0 = datetime(2026, 1, 1, tzinfo=timezone.utc)
 
 
+_LOOP: dict[str, Any] = {}
+
+
 def drive(coro: Any) -> Any:
-    try:
-        coro.send(None)
-    except StopIteration as s:
-        return s.value
-    coro.close()
-    raise RuntimeError("suspended")
+    """Run one store operation to completion on this process's event loop (the built-in SQLite store never suspends, but an
+    operation may hand work to a thread: loop.run_until_complete serves both)."""
+    import asyncio
+
+    if "loop" not in _LOOP:
+        _LOOP["loop"] = asyncio.new_event_loop()
+    return _LOOP["loop"].run_until_complete(coro)
 
 
 class Env:
@@ -193,10 +197,6 @@ def apply(env: Env, op: str) -> Any:
 
     try:
         return ("ok", json.loads(json.dumps(drive(go()), default=str)))
-    except RuntimeError as e:
-        if str(e) == "suspended":
-            raise
-        return ("raised", type(e).__name__, str(e)[:80])
     except Exception as e:  # noqa: BLE001
         return ("raised", type(e).__name__, str(e)[:80])
 
